@@ -40,6 +40,11 @@ def run(tier, seed, replay=None):
     n = 80 if tier == "quick" else 600
 
     def g(rng, i):
+        if i % 10 == 7:
+            return gen.gen_setop_key_program(rng)
+        if i % 10 == 9:
+            # class programs: set operations, late additions, nested classes; every other one with -g and missing glyphs
+            return gen.gen_class_program(rng, bad_glyphs=(i % 20 == 19))
         np = rng.choice([1, 2, 3, 4, 6]) if i % 8 else rng.choice([17, 20, 33, 35])
         prog = gen.gen_match_program(rng, npasses=np, size="small", keyslots=True)
         if i % 3 == 1:
@@ -75,7 +80,7 @@ def run(tier, seed, replay=None):
                                       "meaning": "a text consisting of the named glyphs is marked skippable for the pass although the named rule applies to it (the engine would skip the pass and leave the text unchanged)",
                                       "rerun": "cd %s && printf 'font out.ttf\\nir p.ir.json\\nc14\\n' | %s" % (d, common.grcv_path())})
         # differential shaping: default vs -p
-        rc, log, _ = common.run_grc(build, r["dir"], ["-q", "-p", "p.gdl", "in.ttf", "outp.ttf"])
+        rc, log, _ = common.run_grc(build, r["dir"], ["-q", "-p"] + list(getattr(r["prog"], "compile_opts", ())) + ["p.gdl", "in.ttf", "outp.ttf"])
         if rc != 0:
             rep.violation(r["name"] + "-p", {"broken": "-p build rejected a program the default build accepted", "log": log[-500:]})
             continue
